@@ -1,21 +1,933 @@
+import Fcgi.Proofs.E2ETruncUnb
 import Fcgi.Props.C12E2E4
 import Fcgi.Props.C12E2E9
 import Fcgi.Props.C07Unbounded
 
 /-!
-# C12 — the fault theorems without the size side conditions
+# C12 — the end-to-end fault theorems without the size side conditions
 
-`Props/C07Unbounded.lean` removed `… ≤ 100000` and the buffer-size term of `hhf` from
-`single_request_e2e`.  The script-independence theorems (`Indep3.runTask_dich`, `runTask_eof_err`) never
-had a size hypothesis; only their instances did, through the benign theorem they transfer.  Here:
+`Props/C07Unbounded.lean` removed `… ≤ 100000` and the buffer-size term of `hhf` from the benign core
+theorems.  This file does the same for the C12 end-to-end families: every theorem `X_unbounded` below is the
+registered theorem `X` of `Props/C12E2E*.lean` with
 
-* `write_error_e2e_unbounded`, `read_error_at_index_e2e_unbounded` (`C12E2E4`): a failing write answer /
-  an erroring read answer at ANY index, for a wire and a buffer of any size;
-* `eof_err_lift` (`C12E2E9`) has no size hypothesis either: every `…_unbounded` EOF theorem of
-  `Props/E2EUnbounded.lean` lifts to the failing transport by it (see the end of this file).
+* the hypothesis `hsize`/`hlen : K·|input| + M ≤ 100000` DROPPED (each poll takes `≤ 6·|input| + 26 ≤ connFuel c`
+  steps: `Halts.pollB`; the primed executors of `Proofs/E2ETruncUnb.lean`), and
+* the model-fuel hypothesis made independent of the buffer size `b`: `hcap : alignedBufsize b / 32 + 8 ≤ 1000`
+  is DROPPED, `hhf` is `wcost |data| + 12 ≤ 1000` (Responder) resp. `wcost |data| + 24 ≤ 1000` (Filter) — the
+  `4·cap` term of the handler fuel pays for the reads (`MCfg.OKu`, `FCfg.OKu`: `OK` without the `fuel` field).
+
+So the statements speak about wires, records and buffers of ANY size; what is left of `hhf` bounds only the
+length of the handler's own output `data` (the model's handler fuel is `1000 + …`; the crate has no such bound).
+Proofs are verbatim copies (text transformation) of the registered ones.
+
+Contents: truncation at EVERY offset, all three roles (`eof_any_offset_e2e_unbounded`,
+`eof_any_offset_filter_all_e2e_unbounded`, `eof_any_offset_auth_closed_e2e_unbounded` and the lemmas they are made
+of); the read-error twins (`read_err_*`, including the `C12E2E9` transfer corollaries `read_err_any_offset_*`);
+the write-error / read-error-at-any-index theorems of `C12E2E4` (`write_error_e2e_unbounded`,
+`read_error_at_index_e2e_unbounded`).  `runTask_script_indep3`, `runTask_eof_err`, `eof_err_lift` never had a size
+hypothesis.
 -/
 namespace Fcgi.C12E
-open Fcgi Fcgi.Req Fcgi.Str Fcgi.Async Fcgi.Run Fcgi.Spec Fcgi.E2E Fcgi.C07E Fcgi.C12Inv Fcgi.Indep3
+open Fcgi Fcgi.Req Fcgi.Str Fcgi.Async Fcgi.Run Fcgi.Spec Fcgi.E2E Fcgi.C07E Fcgi.C07U Fcgi.C12Inv Fcgi.Indep3 Fcgi.EofErr
+
+/-! ## Truncation and read errors (`C12E2E`, `2`, `5`, `6`, `7`, `9`) -/
+
+/-- `eof_in_preamble_e2e_partial` without the size hypothesis (and with a model-fuel bound free of `b`). -/
+theorem eof_in_preamble_e2e_partial_unbounded {p : Preamble} {recs : List Rec} (X : Bytes) (b mc k : Nat)
+    (scripts : List (List HOp × Bool)) (t : Transport) (fuel : Nat)
+    (hwf : WellFormedPreamble p recs)
+    (hpairs : ∀ q ∈ p.pairs, (NV.enc q).length ≤ alignedBufsize b) (hnoise : NoiseFits (alignedBufsize b) recs)
+    (hk : k < (serAll recs).length) (hin : t.input = (serAll recs ++ X).take k)
+    (hb : Ben t) (hem : t.endMode = .eof)
+    (hfuel : t.rd.length + t.wr.length + 1 ≤ fuel) :
+    ∃ c', runTask fuel (connS b mc t scripts) 0 none = (c', "RET") ∧ c'.phase = .finished ∧
+      c'.env.tr.input = [] ∧ hsCount c'.env.tr.events = hsCount t.events ∧ c'.scripts = scripts ∧
+      c'.env.tr.wlog = t.wlog ++ (run .header t.input mc).out ∧
+      (run .header t.input mc).out <+: owedPreamble p mc recs := by
+  have htake : t.input = (serAll recs).take k := by
+    rw [hin, List.take_append_of_le_length (Nat.le_of_lt hk)]
+  have hdrop : (serAll recs).drop k ≠ [] := by
+    intro h
+    have := congrArg List.length h
+    simp only [List.length_drop, List.length_nil] at this
+    omega
+  have hK : TCtx (alignedBufsize b) mc t.input ((serAll recs ++ X).drop k) (serAll recs ++ X) :=
+    ⟨alignedBufsize_ge b, by rw [hin]; exact List.take_append_drop _ _, noStuck_of hwf X b mc hpairs hnoise, by
+      rintro F ⟨z, hz⟩
+      refine prefix_not_final hwf (w := F) (t := z ++ (serAll recs).drop k) ?_ ?_ mc
+      · rw [← List.append_assoc, hz, htake, List.take_append_drop]
+      · intro h; exact hdrop (List.append_eq_nil_iff.mp h).2⟩
+  obtain ⟨c', hrun, hfin, hsc⟩ := trunc_run_start' hK (c := connS b mc t scripts) (n := 0) (fuel := fuel)
+    rfl rfl rfl hb hem rfl hfuel
+  refine ⟨c', hrun, hfin.phase, hfin.input, hfin.hs, hsc, hfin.wlog, ?_⟩
+  have hsplit := Req.run_split (st := .header) trivial ((serAll recs).take k) ((serAll recs).drop k) mc hdrop
+  rw [List.take_append_drop] at hsplit
+  have hone := C01.C01_oneshot hwf [] mc
+  rw [List.append_nil] at hone
+  have hout : owedPreamble p mc recs = (run .header (serAll recs) mc).out := by rw [hone]
+  rw [hout, hsplit, htake]
+  exact List.prefix_append _ _
+
+/-- `eof_mid_stream_e2e` without the size hypothesis (and with a model-fuel bound free of `b`). -/
+theorem eof_mid_stream_e2e_unbounded {p : Preamble} {recs : List Rec} (Y C O U : Bytes) (b mc : Nat) (rest : List HOp)
+    (more : List (List HOp × Bool)) (t : Transport) (fuel : Nat)
+    (hwf : WellFormedPreamble p recs) (hrole : p.role = 1 ∨ p.role = 3)
+    (hpairs : ∀ q ∈ p.pairs, (NV.enc q).length ≤ alignedBufsize b) (hnoise : NoiseFits (alignedBufsize b) recs)
+    (hcut : refWire ⟨p.id, p.role, 5, mc⟩ Y = ⟨C, O, .more, U⟩)
+    (hfits : ∀ G, G <+: Y → (refWire ⟨p.id, p.role, 5, mc⟩ G).verdict = .more →
+      (refWire ⟨p.id, p.role, 5, mc⟩ G).unread.length < alignedBufsize b)
+    (hin : t.input = serAll recs ++ Y) (hb : Ben t) (hem : t.endMode = .eof)
+    (hfuel : t.rd.length + t.wr.length + 1 ≤ fuel) :
+    ∃ c', runTask fuel (connS b mc t ((.readAll :: rest, true) :: more)) 0 none = (c', "RET") ∧
+      c'.phase = .finished ∧ c'.env.tr.input = [] ∧
+      c'.env.tr.wlog = t.wlog ++ owedPreamble p mc recs ++ O ∧
+      hsCount c'.env.tr.events = hsCount t.events + 1 ∧ startEvent p.request ∈ c'.env.tr.events ∧
+      readEofEvent C ∈ c'.env.tr.events ∧ handlerEofEvent ∈ c'.env.tr.events ∧ c'.scripts = more := by
+  let g : MCfg := ⟨p, recs, b, mc, Y, C, O, U, rest, more, t.wlog, hsCount t.events⟩
+  have ok : g.OKu := ⟨hwf, hrole, hpairs, hnoise, ⟨hcut, hfits, by have := alignedBufsize_ge b; show 8 ≤ alignedBufsize b; omega⟩⟩
+  obtain ⟨c', hrun, hfin⟩ := mid_run_start' ok (c := connS b mc t ((.readAll :: rest, true) :: more)) (n := 0)
+    (fuel := fuel) rfl rfl hin rfl hb hem rfl rfl rfl rfl hfuel
+  exact ⟨c', hrun, hfin.phase, hfin.input, hfin.wlog, hfin.hs, hfin.start, hfin.rerr, hfin.herr, hfin.scripts⟩
+
+/-- `eof_mid_stream_e2e_body` without the size hypothesis (and with a model-fuel bound free of `b`). -/
+theorem eof_mid_stream_e2e_body_unbounded {p : Preamble} {recs srecs : List Rec} {content : Bytes} (Y : Bytes)
+    (b mc : Nat) (data : Bytes) (st : ExitStatus) (t : Transport) (fuel : Nat)
+    (hwf : WellFormedPreamble p recs) (hrole : p.role = 1)
+    (hpairs : ∀ q ∈ p.pairs, (NV.enc q).length ≤ alignedBufsize b) (hnoise : NoiseFits (alignedBufsize b) recs)
+    (hs : StreamRecs p.id 5 content srecs) (hsn : NoiseFits (alignedBufsize b) srecs)
+    (hY : Y <+: serAll srecs) (hYl : Y.length < (serAll srecs.dropLast).length + 8)
+    (hin : t.input = serAll recs ++ Y) (hb : Ben t) (hem : t.endMode = .eof)
+    (hfuel : t.rd.length + t.wr.length + 1 ≤ fuel) :
+    ∃ c' C O, runTask fuel (conn0 b mc t data st) 0 none = (c', "RET") ∧
+      c'.phase = .finished ∧ c'.env.tr.input = [] ∧ C <+: content ∧ O <+: owedStream p.id 5 mc srecs ∧
+      c'.env.tr.wlog = t.wlog ++ owedPreamble p mc recs ++ O ∧
+      hsCount c'.env.tr.events = hsCount t.events + 1 ∧ startEvent p.request ∈ c'.env.tr.events ∧
+      readEofEvent C ∈ c'.env.tr.events ∧ handlerEofEvent ∈ c'.env.tr.events := by
+  obtain ⟨body, pad, res, _, hbody, hsr⟩ := Str.StreamRecs.split hs
+  have hdl : srecs.dropLast = body := by rw [hsr]; exact List.dropLast_concat
+  rw [hdl] at hYl
+  rw [hsr, C02.serAll_append] at hY
+  have hid : p.id < 65536 := wf_id_lt hwf
+  have hfitb : NoiseFits (alignedBufsize b) body := fun r hr => hsn r (by rw [hsr]; exact List.mem_append_left _ hr)
+  have h8 : 8 ≤ alignedBufsize b := by have := alignedBufsize_ge b; omega
+  have hcutY : ∃ C O U, refWire ⟨p.id, p.role, 5, mc⟩ Y = ⟨C, O, .more, U⟩ ∧ C <+: content ∧
+      O <+: owedStream p.id 5 mc body ∧ (∀ G, G <+: Y → (refWire ⟨p.id, p.role, 5, mc⟩ G).verdict = .more →
+        (refWire ⟨p.id, p.role, 5, mc⟩ G).unread.length < alignedBufsize b) := by
+    rcases prefix_append_cases hY with ⟨w, rfl, _⟩ | ⟨z, _, hz⟩
+    · refine cut_of_body' p.id p.role mc hid hbody h8 hfitb (h := w) ?_ (List.prefix_refl _)
+      simp only [List.length_append] at hYl
+      omega
+    · exact cut_of_body p.id p.role mc hid hbody h8 hfitb ⟨z, hz⟩
+  obtain ⟨C, O, U, hcut, hC, hO, hfits⟩ := hcutY
+  have hO' : O <+: owedStream p.id 5 mc srecs := by
+    rw [hsr, Str.owedStream_append]
+    exact hO.trans (List.prefix_append _ _)
+  obtain ⟨c', h1, h2, h3, h4, h5, h6, h7, h8, _⟩ := eof_mid_stream_e2e_unbounded Y C O U b mc _ [] t fuel hwf (Or.inl hrole)
+    hpairs hnoise hcut hfits hin hb hem hfuel
+  exact ⟨c', C, O, h1, h2, h3, hC, hO', h4, h5, h6, h7, h8⟩
+
+/-- `eof_in_terminator_e2e` without the size hypothesis (and with a model-fuel bound free of `b`). -/
+theorem eof_in_terminator_e2e_unbounded {p : Preamble} {recs : List Rec} {content : Bytes} {srecs : List Rec}
+    {b mc : Nat} {data : Bytes} {st : ExitStatus} {t : Transport} {fuel : Nat} (k : Nat)
+    (hwf : WellFormedPreamble p recs) (hrole : p.role = 1)
+    (hpairs : ∀ q ∈ p.pairs, (NV.enc q).length ≤ alignedBufsize b)
+    (hnoise : NoiseFits (alignedBufsize b) recs)
+    (hs : StreamRecs p.id 5 content srecs) (hsn : NoiseFits (alignedBufsize b) srecs)
+    (hk : (serAll recs).length + (serAll srecs.dropLast).length + 8 ≤ k)
+    (hin : t.input = (serAll recs ++ serAll srecs).take k) (hben : Ben t) (hem : t.endMode = .eof)
+    (hev : hsCount t.events = 0) (hfuel : t.rd.length + t.wr.length + 1 ≤ fuel)
+    (hhf : wcost data.length + 12 ≤ 1000) :
+    ∃ c' O₁ O₂, runTask fuel (conn0 b mc t data st) 0 none = (c', "RET") ∧
+      O₁ ++ O₂ = owedStream p.id 5 mc srecs ∧ c'.phase = .finished ∧
+      c'.env.tr.wlog = t.wlog ++ expectedLogN p recs mc data st O₁ O₂ ∧
+      hsCount c'.env.tr.events = 1 ∧ startEvent p.request ∈ c'.env.tr.events ∧
+      readEvent content ∈ c'.env.tr.events := by
+  by_cases hlt : k < (serAll recs ++ serAll srecs).length
+  · obtain ⟨body, pad, res, hpad, hbody, hsrecs⟩ := Str.StreamRecs.split hs
+    have hdl : srecs.dropLast = body := by rw [hsrecs]; exact List.dropLast_concat
+    rw [hdl] at hk
+    have hsb : NoiseFits (alignedBufsize b) body := fun r hr => hsn r (by rw [hsrecs]; simp [hr])
+    have ok : (cfgR p recs content body pad res b mc data st t.wlog 0 []).OK :=
+      ⟨hwf, hpairs, hnoise, .responderU hrole hbody hsb hpad rfl rfl rfl rfl rfl rfl hhf⟩
+    have hser : serAll srecs = serAll body ++ (trec 5 p.id pad res).ser := by
+      rw [hsrecs, C02.serAll_append, C02.serAll_single]; rfl
+    rw [hser] at hin hlt
+    obtain ⟨n, rfl⟩ : ∃ n, k = (serAll recs).length + ((serAll body).length + n) :=
+      ⟨k - (serAll recs).length - (serAll body).length, by omega⟩
+    have h8 : 8 ≤ n := by omega
+    have hn : n < (trec 5 p.id pad res).ser.length := by
+      simp only [List.length_append] at hlt; omega
+    rw [take_add_append, take_add_append] at hin
+    have ok2 := cfg2_cut ok hrole h8 hn
+    have hstage : Stage (cutCfg (cfgR p recs content body pad res b mc data st t.wlog 0 []) n)
+        (conn0 b mc t data st) :=
+      .start (raw := []) rfl (by show [] ++ t.input = _; rw [hin]; rfl) (Nat.zero_le _) rfl hben rfl rfl rfl hev
+    obtain ⟨c', O1, O2, hO, hrun, hfin⟩ := run_from_stage2' ok2 (ans t) (conn0 b mc t data st) 0 fuel hstage hem rfl
+      (Nat.le_refl _) (by unfold ans; omega)
+    have hOt : owedStream p.id 5 mc srecs = owedStream p.id 5 mc body := by
+      rw [hsrecs, owedStream_append, owedStream_term p.id 5 mc _ rfl, List.append_nil]
+    have hlog : c'.env.tr.wlog = (cfgR p recs content body pad res b mc data st t.wlog 0 []).L3 O1 O2 := hfin.log
+    rw [L3_eq] at hlog
+    have hev1 : hsCount c'.env.tr.events = 0 + 1 ∧ hsEvent p.request ∈ c'.env.tr.events := hfin.ev
+    exact ⟨c', O1, O2, hrun, hO.trans hOt.symm, hfin.ph, hlog, hev1.1, hev1.2,
+      hfin.re _ (by show rEvent content ∈ [rEvent content]; simp)⟩
+  · have hin' : t.input = serAll recs ++ serAll srecs := by
+      rw [hin, List.take_of_length_le (by omega)]
+    obtain ⟨c', fin, O1, O2, hrun, hO, ho⟩ :=
+      single_request_e2e_unbounded (data := data) (st := st) (fuel := fuel) hwf hrole hpairs hnoise hs hsn hin' hben hev hfuel hhf
+    rcases ho.final with ⟨_, rfl, hph⟩ | ⟨_, _, rfl, hph⟩ | ⟨_, hp, _⟩
+    · exact ⟨c', O1, O2, hrun, hO, hph, ho.log, ho.one_handler.1, ho.one_handler.2, ho.read_content⟩
+    · exact ⟨c', O1, O2, hrun, hO, hph, ho.log, ho.one_handler.1, ho.one_handler.2, ho.read_content⟩
+    · rw [hem] at hp; cases hp
+
+/-- `eof_any_offset_e2e` without the size hypothesis (and with a model-fuel bound free of `b`). -/
+theorem eof_any_offset_e2e_unbounded {p : Preamble} {recs : List Rec} {content : Bytes} {srecs : List Rec}
+    {b mc : Nat} {data : Bytes} {st : ExitStatus} {t : Transport} {fuel : Nat} (k : Nat)
+    (hwf : WellFormedPreamble p recs) (hrole : p.role = 1)
+    (hpairs : ∀ q ∈ p.pairs, (NV.enc q).length ≤ alignedBufsize b)
+    (hnoise : NoiseFits (alignedBufsize b) recs)
+    (hs : StreamRecs p.id 5 content srecs) (hsn : NoiseFits (alignedBufsize b) srecs)
+    (hin : t.input = (serAll recs ++ serAll srecs).take k) (hben : Ben t) (hem : t.endMode = .eof)
+    (hev : hsCount t.events = 0) (hfuel : t.rd.length + t.wr.length + 1 ≤ fuel)
+    (hhf : wcost data.length + 12 ≤ 1000) :
+    ∃ c' O₁ O₂, runTask fuel (conn0 b mc t data st) 0 none = (c', "RET") ∧ c'.phase = .finished ∧
+      O₁ ++ O₂ = owedStream p.id 5 mc srecs ∧
+      -- the log is a byte prefix of a complete log
+      (∃ w, c'.env.tr.wlog = t.wlog ++ w ∧ w <+: expectedLogN p recs mc data st O₁ O₂) ∧
+      -- at most one handler start; none for an incomplete preamble
+      hsCount c'.env.tr.events ≤ 1 ∧
+      (k < (serAll recs).length → hsCount c'.env.tr.events = 0) ∧
+      ((serAll recs).length ≤ k → hsCount c'.env.tr.events = 1 ∧ startEvent p.request ∈ c'.env.tr.events) ∧
+      -- a `readAll` that cannot be completed fails with `UnexpectedEof`, after a prefix of the content
+      ((serAll recs).length ≤ k → k < (serAll recs).length + (serAll srecs.dropLast).length + 8 →
+        ∃ C, C <+: content ∧ readEofEvent C ∈ c'.env.tr.events ∧ handlerEofEvent ∈ c'.env.tr.events) ∧
+      -- behind the header of the terminating record: everything is read, everything is answered
+      ((serAll recs).length + (serAll srecs.dropLast).length + 8 ≤ k →
+        readEvent content ∈ c'.env.tr.events ∧
+        c'.env.tr.wlog = t.wlog ++ expectedLogN p recs mc data st O₁ O₂) := by
+  by_cases h1 : k < (serAll recs).length
+  · -- inside the preamble
+    obtain ⟨c', hrun, hph, _, hhs, _, hlog, hpre⟩ := eof_in_preamble_e2e_partial_unbounded (p := p) (recs := recs) (serAll srecs)
+      b mc k [(canonical data st, true)] t fuel hwf hpairs hnoise h1 hin hben hem hfuel
+    refine ⟨c', owedStream p.id 5 mc srecs, [], hrun, hph, List.append_nil _, ⟨_, hlog, ?_⟩, by omega,
+      fun _ => hhs.trans hev, fun h => by omega, fun h => by omega, fun h => by omega⟩
+    refine hpre.trans ?_
+    simp only [expectedLogN, List.append_assoc]
+    exact List.prefix_append _ _
+  · by_cases h2 : k < (serAll recs).length + (serAll srecs.dropLast).length + 8
+    · -- inside the stream, in front of the 8th byte of the terminating record
+      obtain ⟨j, rfl⟩ : ∃ j, k = (serAll recs).length + j := ⟨k - (serAll recs).length, by omega⟩
+      rw [take_add_append] at hin
+      obtain ⟨c', C, O, hrun, hph, _, hC, hO, hlog, hhs, hst, hre, hhe⟩ := eof_mid_stream_e2e_body_unbounded
+        (p := p) (recs := recs) (srecs := srecs) (content := content) ((serAll srecs).take j) b mc data st t fuel
+        hwf hrole hpairs hnoise hs hsn (List.take_prefix _ _)
+        (by have := List.length_take_le j (serAll srecs); omega) hin hben hem hfuel
+      have hhs1 : hsCount c'.env.tr.events = 1 := by rw [hhs, hev]
+      refine ⟨c', owedStream p.id 5 mc srecs, [], hrun, hph, List.append_nil _,
+        ⟨owedPreamble p mc recs ++ O, by rw [hlog, List.append_assoc], ?_⟩, by omega,
+        fun h => by omega, fun _ => ⟨hhs1, hst⟩, fun _ _ => ⟨C, hC, hre, hhe⟩, fun h => by omega⟩
+      obtain ⟨z, hz⟩ := hO
+      simp only [expectedLogN, List.append_assoc, ← hz]
+      exact ⟨z ++ (streamRecords 6 p.id data ++ ([] ++ epilogue p.id st)), by simp only [List.append_assoc]⟩
+    · -- behind the header of the terminating record
+      obtain ⟨c', O1, O2, hrun, hO, hph, hlog, hhs, hst, hre⟩ := eof_in_terminator_e2e_unbounded (data := data) (st := st)
+        (fuel := fuel) k hwf hrole hpairs hnoise hs hsn (by omega) hin hben hem hev hfuel hhf
+      exact ⟨c', O1, O2, hrun, hph, hO, ⟨_, hlog, List.prefix_refl _⟩, by omega, fun h => by omega,
+        fun _ => ⟨hhs, hst⟩, fun _ h => by omega, fun _ => ⟨hre, hlog⟩⟩
+
+/-- `read_err_in_preamble_e2e` without the size hypothesis (and with a model-fuel bound free of `b`). -/
+theorem read_err_in_preamble_e2e_unbounded {p : Preamble} {recs : List Rec} (X : Bytes) (b mc k : Nat)
+    (scripts : List (List HOp × Bool)) (t : Transport) (fuel : Nat)
+    (hwf : WellFormedPreamble p recs)
+    (hpairs : ∀ q ∈ p.pairs, (NV.enc q).length ≤ alignedBufsize b) (hnoise : NoiseFits (alignedBufsize b) recs)
+    (hk : k < (serAll recs).length) (hin : t.input = (serAll recs ++ X).take k)
+    (hb : BenE t) (hem : t.endMode = .err)
+    (hfuel : t.rd.length + t.wr.length + 1 ≤ fuel) :
+    ∃ c', runTask fuel (connS b mc t scripts) 0 none = (c', "RET") ∧ c'.phase = .finished ∧
+      c'.env.tr.input = [] ∧ hsCount c'.env.tr.events = hsCount t.events ∧ c'.scripts = scripts ∧
+      c'.env.tr.wlog = t.wlog ++ (run .header t.input mc).out ∧
+      (run .header t.input mc).out <+: owedPreamble p mc recs := by
+  have htake : t.input = (serAll recs).take k := by
+    rw [hin, List.take_append_of_le_length (Nat.le_of_lt hk)]
+  have hdrop : (serAll recs).drop k ≠ [] := by
+    intro h
+    have := congrArg List.length h
+    simp only [List.length_drop, List.length_nil] at this
+    omega
+  have hK : TCtx (alignedBufsize b) mc t.input ((serAll recs ++ X).drop k) (serAll recs ++ X) :=
+    ⟨alignedBufsize_ge b, by rw [hin]; exact List.take_append_drop _ _, noStuck_of hwf X b mc hpairs hnoise, by
+      rintro F ⟨z, hz⟩
+      refine prefix_not_final hwf (w := F) (t := z ++ (serAll recs).drop k) ?_ ?_ mc
+      · rw [← List.append_assoc, hz, htake, List.take_append_drop]
+      · intro h; exact hdrop (List.append_eq_nil_iff.mp h).2⟩
+  obtain ⟨c', hrun, hfin, hsc⟩ := trunc_run_startE' hK (c := connS b mc t scripts) (n := 0) (fuel := fuel)
+    rfl rfl rfl hb hem rfl hfuel
+  refine ⟨c', hrun, hfin.phase, hfin.input, hfin.hs, hsc, hfin.wlog, ?_⟩
+  have hsplit := Req.run_split (st := .header) trivial ((serAll recs).take k) ((serAll recs).drop k) mc hdrop
+  rw [List.take_append_drop] at hsplit
+  have hone := C01.C01_oneshot hwf [] mc
+  rw [List.append_nil] at hone
+  have hout : owedPreamble p mc recs = (run .header (serAll recs) mc).out := by rw [hone]
+  rw [hout, hsplit, htake]
+  exact List.prefix_append _ _
+
+/-- `read_err_mid_stream_e2e` without the size hypothesis (and with a model-fuel bound free of `b`). -/
+theorem read_err_mid_stream_e2e_unbounded {p : Preamble} {recs : List Rec} (Y C O U : Bytes) (b mc : Nat) (rest : List HOp)
+    (more : List (List HOp × Bool)) (t : Transport) (fuel : Nat)
+    (hwf : WellFormedPreamble p recs) (hrole : p.role = 1 ∨ p.role = 3)
+    (hpairs : ∀ q ∈ p.pairs, (NV.enc q).length ≤ alignedBufsize b) (hnoise : NoiseFits (alignedBufsize b) recs)
+    (hcut : refWire ⟨p.id, p.role, 5, mc⟩ Y = ⟨C, O, .more, U⟩)
+    (hfits : ∀ G, G <+: Y → (refWire ⟨p.id, p.role, 5, mc⟩ G).verdict = .more →
+      (refWire ⟨p.id, p.role, 5, mc⟩ G).unread.length < alignedBufsize b)
+    (hin : t.input = serAll recs ++ Y) (hb : BenE t) (hem : t.endMode = .err)
+    (hfuel : t.rd.length + t.wr.length + 1 ≤ fuel) :
+    ∃ c' x, runTask fuel (connS b mc t ((.readAll :: rest, true) :: more)) 0 none = (c', "RET") ∧
+      x = c'.env.tr.rdErr ∧ c'.phase = .finished ∧ c'.env.tr.input = [] ∧
+      c'.env.tr.wlog = t.wlog ++ owedPreamble p mc recs ++ O ∧
+      hsCount c'.env.tr.events = hsCount t.events + 1 ∧ startEvent p.request ∈ c'.env.tr.events ∧
+      readErrEvent x C ∈ c'.env.tr.events ∧ handlerErrEvent x ∈ c'.env.tr.events ∧ c'.scripts = more := by
+  let g : MCfg := ⟨p, recs, b, mc, Y, C, O, U, rest, more, t.wlog, hsCount t.events⟩
+  have ok : g.OKu := ⟨hwf, hrole, hpairs, hnoise, ⟨hcut, hfits, by have := alignedBufsize_ge b; show 8 ≤ alignedBufsize b; omega⟩⟩
+  obtain ⟨c', hrun, hfin⟩ := mid_run_startE' ok (c := connS b mc t ((.readAll :: rest, true) :: more)) (n := 0)
+    (fuel := fuel) rfl rfl hin rfl hb hem rfl rfl rfl rfl hfuel
+  exact ⟨c', _, hrun, rfl, hfin.phase, hfin.input, hfin.wlog, hfin.hs, hfin.start, hfin.rerr, hfin.herr, hfin.scripts⟩
+
+/-- `read_err_mid_stream_e2e_body` without the size hypothesis (and with a model-fuel bound free of `b`). -/
+theorem read_err_mid_stream_e2e_body_unbounded {p : Preamble} {recs srecs : List Rec} {content : Bytes} (Y : Bytes)
+    (b mc : Nat) (data : Bytes) (st : ExitStatus) (t : Transport) (fuel : Nat)
+    (hwf : WellFormedPreamble p recs) (hrole : p.role = 1)
+    (hpairs : ∀ q ∈ p.pairs, (NV.enc q).length ≤ alignedBufsize b) (hnoise : NoiseFits (alignedBufsize b) recs)
+    (hs : StreamRecs p.id 5 content srecs) (hsn : NoiseFits (alignedBufsize b) srecs)
+    (hY : Y <+: serAll srecs) (hYl : Y.length < (serAll srecs.dropLast).length + 8)
+    (hin : t.input = serAll recs ++ Y) (hb : BenE t) (hem : t.endMode = .err)
+    (hfuel : t.rd.length + t.wr.length + 1 ≤ fuel) :
+    ∃ c' x C O, runTask fuel (conn0 b mc t data st) 0 none = (c', "RET") ∧
+      x = c'.env.tr.rdErr ∧ (x = .connectionAborted ∨ x = .transportRead) ∧
+      c'.phase = .finished ∧ c'.env.tr.input = [] ∧ C <+: content ∧ O <+: owedStream p.id 5 mc srecs ∧
+      c'.env.tr.wlog = t.wlog ++ owedPreamble p mc recs ++ O ∧
+      hsCount c'.env.tr.events = hsCount t.events + 1 ∧ startEvent p.request ∈ c'.env.tr.events ∧
+      readErrEvent x C ∈ c'.env.tr.events ∧ handlerErrEvent x ∈ c'.env.tr.events := by
+  obtain ⟨body, pad, res, _, hbody, hsr⟩ := Str.StreamRecs.split hs
+  have hdl : srecs.dropLast = body := by rw [hsr]; exact List.dropLast_concat
+  rw [hdl] at hYl
+  rw [hsr, C02.serAll_append] at hY
+  have hid : p.id < 65536 := wf_id_lt hwf
+  have hfitb : NoiseFits (alignedBufsize b) body := fun r hr => hsn r (by rw [hsr]; exact List.mem_append_left _ hr)
+  have h8 : 8 ≤ alignedBufsize b := by have := alignedBufsize_ge b; omega
+  have hcutY : ∃ C O U, refWire ⟨p.id, p.role, 5, mc⟩ Y = ⟨C, O, .more, U⟩ ∧ C <+: content ∧
+      O <+: owedStream p.id 5 mc body ∧ (∀ G, G <+: Y → (refWire ⟨p.id, p.role, 5, mc⟩ G).verdict = .more →
+        (refWire ⟨p.id, p.role, 5, mc⟩ G).unread.length < alignedBufsize b) := by
+    rcases prefix_append_cases hY with ⟨w, rfl, _⟩ | ⟨z, _, hz⟩
+    · refine cut_of_body' p.id p.role mc hid hbody h8 hfitb (h := w) ?_ (List.prefix_refl _)
+      simp only [List.length_append] at hYl
+      omega
+    · exact cut_of_body p.id p.role mc hid hbody h8 hfitb ⟨z, hz⟩
+  obtain ⟨C, O, U, hcut, hC, hO, hfits⟩ := hcutY
+  have hO' : O <+: owedStream p.id 5 mc srecs := by
+    rw [hsr, Str.owedStream_append]
+    exact hO.trans (List.prefix_append _ _)
+  obtain ⟨c', x, h1, hx, h2, h3, h4, h5, h6, h7, h8, _⟩ := read_err_mid_stream_e2e_unbounded Y C O U b mc _ [] t fuel hwf (Or.inl hrole)
+    hpairs hnoise hcut hfits hin hb hem hfuel
+  exact ⟨c', x, C, O, h1, hx, by rw [hx]; exact rdErr_kinds _, h2, h3, hC, hO', h4, h5, h6, h7, h8⟩
+
+/-- `eof_in_stdin_filter_e2e` without the size hypothesis (and with a model-fuel bound free of `b`). -/
+theorem eof_in_stdin_filter_e2e_unbounded {p : Preamble} {recs srecs drecs : List Rec} {content : Bytes} (Y : Bytes)
+    (b mc : Nat) (data : Bytes) (st : ExitStatus) (t : Transport) (fuel : Nat)
+    (hwf : WellFormedPreamble p recs) (hrole : p.role = 3)
+    (hpairs : ∀ q ∈ p.pairs, (NV.enc q).length ≤ alignedBufsize b) (hnoise : NoiseFits (alignedBufsize b) recs)
+    (hs : StreamRecs p.id 5 content srecs) (hsn : NoiseFits (alignedBufsize b) srecs)
+    (hY : Y <+: serAll srecs ++ serAll drecs) (hYl : Y.length < (serAll srecs.dropLast).length + 8)
+    (hin : t.input = serAll recs ++ Y) (hb : Ben t) (hem : t.endMode = .eof)
+    (hfuel : t.rd.length + t.wr.length + 1 ≤ fuel) :
+    ∃ c' C O, runTask fuel (connS b mc t [(canonicalF data st, true)]) 0 none = (c', "RET") ∧
+      c'.phase = .finished ∧ c'.env.tr.input = [] ∧ C <+: content ∧ O <+: owedStream p.id 5 mc srecs ∧
+      c'.env.tr.wlog = t.wlog ++ owedPreamble p mc recs ++ O ∧
+      hsCount c'.env.tr.events = hsCount t.events + 1 ∧ startEvent p.request ∈ c'.env.tr.events ∧
+      readEofEvent C ∈ c'.env.tr.events ∧ handlerEofEvent ∈ c'.env.tr.events := by
+  obtain ⟨body, pad, res, _, hbody, hsr⟩ := Str.StreamRecs.split hs
+  have hdl : srecs.dropLast = body := by rw [hsr]; exact List.dropLast_concat
+  rw [hdl] at hYl
+  rw [hsr, C02.serAll_append, List.append_assoc] at hY
+  have hid : p.id < 65536 := wf_id_lt hwf
+  have hfitb : NoiseFits (alignedBufsize b) body := fun r hr => hsn r (by rw [hsr]; exact List.mem_append_left _ hr)
+  have h8 : 8 ≤ alignedBufsize b := by have := alignedBufsize_ge b; omega
+  have hcutY : ∃ C O U, refWire ⟨p.id, p.role, 5, mc⟩ Y = ⟨C, O, .more, U⟩ ∧ C <+: content ∧
+      O <+: owedStream p.id 5 mc body ∧ (∀ G, G <+: Y → (refWire ⟨p.id, p.role, 5, mc⟩ G).verdict = .more →
+        (refWire ⟨p.id, p.role, 5, mc⟩ G).unread.length < alignedBufsize b) := by
+    rcases prefix_append_cases hY with ⟨w, rfl, _⟩ | ⟨z, _, hz⟩
+    · refine cut_of_body' p.id p.role mc hid hbody h8 hfitb (h := w) ?_ (List.prefix_refl _)
+      simp only [List.length_append] at hYl
+      omega
+    · exact cut_of_body p.id p.role mc hid hbody h8 hfitb ⟨z, hz⟩
+  obtain ⟨C, O, U, hcut, hC, hO, hfits⟩ := hcutY
+  have hO' : O <+: owedStream p.id 5 mc srecs := by
+    rw [hsr, Str.owedStream_append]
+    exact hO.trans (List.prefix_append _ _)
+  obtain ⟨c', h1, h2, h3, h4, h5, h6, h7, h8, _⟩ := eof_mid_stream_e2e_unbounded Y C O U b mc
+    [.setStream 8, .readAll, .open_ 6, .writeAll 0 data, .dropW 0, .ret st] [] t fuel hwf (Or.inr hrole)
+    hpairs hnoise hcut hfits hin hb hem hfuel
+  exact ⟨c', C, O, h1, h2, h3, hC, hO', h4, h5, h6, h7, h8⟩
+
+/-- `eof_in_data_filter_e2e` without the size hypothesis (and with a model-fuel bound free of `b`). -/
+theorem eof_in_data_filter_e2e_unbounded {p : Preamble} {recs srecs drecs : List Rec} {content content2 : Bytes} (Z : Bytes)
+    (b mc : Nat) (data : Bytes) (st : ExitStatus) (t : Transport) (fuel : Nat)
+    (hwf : WellFormedPreamble p recs) (hrole : p.role = 3)
+    (hpairs : ∀ q ∈ p.pairs, (NV.enc q).length ≤ alignedBufsize b) (hnoise : NoiseFits (alignedBufsize b) recs)
+    (hs : StreamRecs p.id 5 content srecs) (hsn : NoiseFits (alignedBufsize b) srecs)
+    (hd : StreamRecs p.id 8 content2 drecs) (hdn : NoiseFits (alignedBufsize b) drecs)
+    (hZ : serAll srecs.dropLast ++ Z <+: serAll srecs ++ serAll drecs) (hZ8 : 8 ≤ Z.length)
+    (hZl : (serAll srecs.dropLast).length + Z.length < (serAll srecs).length + (serAll drecs.dropLast).length + 8)
+    (hin : t.input = serAll recs ++ (serAll srecs.dropLast ++ Z)) (hb : Ben t) (hem : t.endMode = .eof)
+    (hev : hsCount t.events = 0)
+    (hfuel : t.rd.length + t.wr.length + 1 ≤ fuel)
+    (hhf : wcost data.length + 24 ≤ 1000) :
+    ∃ c' C2 O2, runTask fuel (connS b mc t [(canonicalF data st, true)]) 0 none = (c', "RET") ∧
+      c'.phase = .finished ∧ c'.env.tr.input = [] ∧ C2 <+: content2 ∧ O2 <+: owedStream p.id 8 mc drecs ∧
+      c'.env.tr.wlog = t.wlog ++ owedPreamble p mc recs ++ (owedStream p.id 5 mc srecs ++ O2) ∧
+      hsCount c'.env.tr.events = 1 ∧ startEvent p.request ∈ c'.env.tr.events ∧
+      readEvent content ∈ c'.env.tr.events ∧ readEofEvent C2 ∈ c'.env.tr.events ∧
+      handlerEofEvent ∈ c'.env.tr.events := by
+  obtain ⟨body, pad, res, hpad, hbody, hsr⟩ := Str.StreamRecs.split hs
+  obtain ⟨body2, pad2, res2, hpad2, hbody2, hdr⟩ := Str.StreamRecs.split hd
+  have hdl : srecs.dropLast = body := by rw [hsr]; exact List.dropLast_concat
+  have hdl2 : drecs.dropLast = body2 := by rw [hdr]; exact List.dropLast_concat
+  rw [hdl] at hZ hZl hin
+  rw [hdl2] at hZl
+  have hsb : NoiseFits (alignedBufsize b) body := fun r hr => hsn r (by rw [hsr]; simp [hr])
+  have hdb : NoiseFits (alignedBufsize b) body2 := fun r hr => hdn r (by rw [hdr]; simp [hr])
+  have ok : (cfgF p recs content body pad res content2 body2 pad2 res2 b mc data st t.wlog 0 []).OK :=
+    ⟨hwf, hpairs, hnoise, .filterU hrole hbody hbody2 hsb hdb hpad hpad2 rfl rfl rfl rfl rfl rfl hhf⟩
+  obtain ⟨hK1, hK2, _⟩ := kokF ok hrole hbody hbody2 hsb hdb hpad hpad2 rfl rfl
+  have hid : p.id < 65536 := wf_id_lt hwf
+  have h8 : 8 ≤ alignedBufsize b := by have := alignedBufsize_ge b; omega
+  have htw : (trec 5 p.id pad res).WF := ⟨hid, by simp [trec], hpad⟩
+  -- `Z` is a prefix of the Stdin terminator and the Data stream
+  have hser : serAll srecs ++ serAll drecs =
+      serAll body ++ ((trec 5 p.id pad res).ser ++ (serAll body2 ++ (trec 8 p.id pad2 res2).ser)) := by
+    rw [hsr, hdr, C02.serAll_append, C02.serAll_single, C02.serAll_append, C02.serAll_single, List.append_assoc]
+    rfl
+  rw [hser] at hZ
+  have hZ' : Z <+: (trec 5 p.id pad res).ser ++ (serAll body2 ++ (trec 8 p.id pad2 res2).ser) :=
+    (List.prefix_append_right_inj _).1 hZ
+  have hserl : (serAll srecs).length = (serAll body).length + (trec 5 p.id pad res).ser.length := by
+    rw [hsr, C02.serAll_append, C02.serAll_single, List.length_append]; rfl
+  -- cut the Data terminator down to the (fewer than 8) bytes of it that arrived
+  obtain ⟨h, hh, hZh⟩ := prefix_cut hZ' (by omega)
+  have htrole : rclass ⟨p.id, 3, 5, mc⟩ (trec 5 p.id pad res) = .endStream := by
+    simp [rclass, trec, RT.isInputStream]
+  have hpc : rclass ⟨p.id, 3, 8, mc⟩ (trec 5 p.id pad res) = .noise := by
+    have hl : ¬ Later 3 (some 8) 5 := by decide
+    simp [rclass, trec, RT.isInputStream, hl]
+  have hpo : owed (some p.id) mc (trec 5 p.id pad res) = [] := by
+    simp [owed, trec, RT.valid, RT.getValues, RT.beginRequest]
+  obtain ⟨C2, O2, U2, hcut2, hC2, hO2⟩ := k2_cut p.id mc hid (trec 5 p.id pad res) htw hpc hpo hbody2 h8 hdb hh hZh
+  have href1 := k1_ref p.id mc hid hbody (trec 5 p.id pad res) htw htrole hZ' hZ8
+  -- the configuration
+  let g : FCfg := ⟨p, recs, b, mc,
+    ⟨⟨p.id, p.role, 5, mc⟩, p.request, alignedBufsize b, serAll body ++ Z, content, owedStream p.id 5 mc body, Z⟩,
+    ⟨⟨p.id, 3, 8, mc⟩, p.request, alignedBufsize b, Z, C2, O2, U2⟩,
+    oscript data st, [], t.wlog, 0⟩
+  have hXpre : serAll body ++ Z <+: (cfgF p recs content body pad res content2 body2 pad2 res2 b mc data st t.wlog 0 []).X :=
+    hZ
+  have ok2 : g.OKu := by
+    refine ⟨hwf, hrole, hpairs, hnoise, ⟨?_, fun G hG hv => hK1.fits G (hG.trans hXpre) hv, h8⟩,
+      ⟨hcut2, fun G hG hv => hK2.fits G (hG.trans hZ') hv, h8⟩,
+      ⟨by show (⟨p.id, p.role, 5, mc⟩ : Str.Cfg) = ⟨p.id, 3, 5, mc⟩; rw [hrole], rfl, rfl, rfl, rfl⟩, rfl, rfl, rfl⟩
+    show refWire ⟨p.id, p.role, 5, mc⟩ (serAll body ++ Z) = _
+    rw [hrole]; exact href1
+  obtain ⟨c', hrun, hfin⟩ := fmid_run_start' ok2 (c := connS b mc t [(canonicalF data st, true)]) (n := 0) (fuel := fuel)
+    rfl rfl hin rfl hb hem rfl rfl rfl hev hfuel
+  have hO5 : owedStream p.id 5 mc srecs = owedStream p.id 5 mc body := by
+    rw [hsr, owedStream_append, owedStream_term p.id 5 mc _ rfl, List.append_nil]
+  have hO2' : O2 <+: owedStream p.id 8 mc drecs := by
+    rw [hdr, Str.owedStream_append]
+    exact hO2.trans (List.prefix_append _ _)
+  refine ⟨c', C2, O2, hrun, hfin.phase, hfin.input, hC2, hO2', ?_, hfin.hs, hfin.start, hfin.read1, hfin.rerr, hfin.herr⟩
+  rw [hO5]
+  have hw : c'.env.tr.wlog = (t.wlog ++ owedPreamble p mc recs) ++ (owedStream p.id 5 mc body ++ O2) := hfin.wlog
+  rw [hw]
+
+/-- `eof_any_offset_filter_e2e` without the size hypothesis (and with a model-fuel bound free of `b`). -/
+theorem eof_any_offset_filter_e2e_unbounded {p : Preamble} {recs srecs drecs : List Rec} {content content2 : Bytes}
+    {b mc : Nat} {data : Bytes} {st : ExitStatus} {t : Transport} {fuel : Nat} (k : Nat)
+    (hwf : WellFormedPreamble p recs) (hrole : p.role = 3)
+    (hpairs : ∀ q ∈ p.pairs, (NV.enc q).length ≤ alignedBufsize b) (hnoise : NoiseFits (alignedBufsize b) recs)
+    (hs : StreamRecs p.id 5 content srecs) (hsn : NoiseFits (alignedBufsize b) srecs)
+    (hd : StreamRecs p.id 8 content2 drecs) (hdn : NoiseFits (alignedBufsize b) drecs)
+    (hin : t.input = (serAll recs ++ (serAll srecs ++ serAll drecs)).take k)
+    (hk : k < (serAll recs).length + (serAll srecs).length + (serAll drecs.dropLast).length + 8 ∨
+      (serAll recs ++ (serAll srecs ++ serAll drecs)).length ≤ k)
+    (hb : Ben t) (hem : t.endMode = .eof) (hev : hsCount t.events = 0)
+    (hfuel : t.rd.length + t.wr.length + 1 ≤ fuel)
+    (hhf : wcost data.length + 24 ≤ 1000) :
+    ∃ c' O₁ O₂, runTask fuel (connS b mc t [(canonicalF data st, true)]) 0 none = (c', "RET") ∧
+      c'.phase = .finished ∧ O₁ ++ O₂ = owedStream p.id 5 mc srecs ++ owedStream p.id 8 mc drecs ∧
+      (∃ w, c'.env.tr.wlog = t.wlog ++ w ∧ w <+: expectedLogN p recs mc data st O₁ O₂) ∧
+      hsCount c'.env.tr.events ≤ 1 ∧
+      (k < (serAll recs).length → hsCount c'.env.tr.events = 0) ∧
+      ((serAll recs).length ≤ k → hsCount c'.env.tr.events = 1 ∧ startEvent p.request ∈ c'.env.tr.events) ∧
+      -- inside Stdin: the first read fails with UnexpectedEof after a prefix of the content
+      ((serAll recs).length ≤ k → k < (serAll recs).length + (serAll srecs.dropLast).length + 8 →
+        ∃ C, C <+: content ∧ readEofEvent C ∈ c'.env.tr.events ∧ handlerEofEvent ∈ c'.env.tr.events) ∧
+      -- inside Data: Stdin was read completely, the second read fails with UnexpectedEof
+      ((serAll recs).length + (serAll srecs.dropLast).length + 8 ≤ k →
+        k < (serAll recs).length + (serAll srecs).length + (serAll drecs.dropLast).length + 8 →
+        readEvent content ∈ c'.env.tr.events ∧
+        ∃ C2, C2 <+: content2 ∧ readEofEvent C2 ∈ c'.env.tr.events ∧ handlerEofEvent ∈ c'.env.tr.events) ∧
+      -- the whole wire: everything read, everything answered
+      ((serAll recs ++ (serAll srecs ++ serAll drecs)).length ≤ k →
+        readEvent content ∈ c'.env.tr.events ∧ readEvent content2 ∈ c'.env.tr.events ∧
+        c'.env.tr.wlog = t.wlog ++ expectedLogN p recs mc data st O₁ O₂) := by
+  obtain ⟨body, pad, res, hpad, hbody, hsr⟩ := Str.StreamRecs.split hs
+  obtain ⟨body2, pad2, res2, hpad2, hbody2, hdr⟩ := Str.StreamRecs.split hd
+  have hdl : srecs.dropLast = body := by rw [hsr]; exact List.dropLast_concat
+  have hdl2 : drecs.dropLast = body2 := by rw [hdr]; exact List.dropLast_concat
+  have hdll : (serAll srecs.dropLast).length = (serAll body).length := by rw [hdl]
+  have hdll2 : (serAll drecs.dropLast).length = (serAll body2).length := by rw [hdl2]
+  have hsl : (serAll srecs).length = (serAll body).length + (8 + pad.length) := by
+    rw [hsr, C02.serAll_append, C02.serAll_single, List.length_append, ser_length]; rfl
+  have hdlen : (serAll drecs).length = (serAll body2).length + (8 + pad2.length) := by
+    rw [hdr, C02.serAll_append, C02.serAll_single, List.length_append, ser_length]; rfl
+  have hO5 : owedStream p.id 5 mc srecs = owedStream p.id 5 mc body := by
+    rw [hsr, owedStream_append, owedStream_term p.id 5 mc _ rfl, List.append_nil]
+  by_cases h1 : k < (serAll recs).length
+  · obtain ⟨c', hrun, hph, _, hhs, _, hlog, hpre⟩ := eof_in_preamble_e2e_partial_unbounded (p := p) (recs := recs)
+      (serAll srecs ++ serAll drecs) b mc k [(canonicalF data st, true)] t fuel hwf hpairs hnoise h1 hin hb hem hfuel
+    refine ⟨c', owedStream p.id 5 mc srecs ++ owedStream p.id 8 mc drecs, [], hrun, hph, List.append_nil _,
+      ⟨_, hlog, ?_⟩, by omega, fun _ => hhs.trans hev, fun h => by omega, fun h => by omega, fun h => by omega,
+      fun h => by simp only [List.length_append] at h; omega⟩
+    refine hpre.trans ?_
+    simp only [expectedLogN, List.append_assoc]
+    exact List.prefix_append _ _
+  · by_cases h2 : k < (serAll recs).length + (serAll srecs.dropLast).length + 8
+    · obtain ⟨j, rfl⟩ : ∃ j, k = (serAll recs).length + j := ⟨k - (serAll recs).length, by omega⟩
+      rw [take_add_append] at hin
+      obtain ⟨c', C, O, hrun, hph, _, hC, hO, hlog, hhs, hst, hre, hhe⟩ := eof_in_stdin_filter_e2e_unbounded
+        (p := p) (recs := recs) (srecs := srecs) (drecs := drecs) (content := content)
+        ((serAll srecs ++ serAll drecs).take j) b mc data st t fuel hwf hrole hpairs hnoise hs hsn
+        (List.take_prefix _ _) (by have := List.length_take_le j (serAll srecs ++ serAll drecs); omega)
+        hin hb hem hfuel
+      have hhs1 : hsCount c'.env.tr.events = 1 := by rw [hhs, hev]
+      refine ⟨c', owedStream p.id 5 mc srecs ++ owedStream p.id 8 mc drecs, [], hrun, hph, List.append_nil _,
+        ⟨owedPreamble p mc recs ++ O, by rw [hlog, List.append_assoc], ?_⟩, by omega,
+        fun h => by omega, fun _ => ⟨hhs1, hst⟩, fun _ _ => ⟨C, hC, hre, hhe⟩, fun h => by omega,
+        fun h => by simp only [List.length_append] at h; omega⟩
+      obtain ⟨z, hz⟩ := hO
+      simp only [expectedLogN, List.append_assoc, ← hz]
+      exact ⟨z ++ (owedStream p.id 8 mc drecs ++ (streamRecords 6 p.id data ++ ([] ++ epilogue p.id st))), by
+        simp only [List.append_assoc]⟩
+    · by_cases h3 : k < (serAll recs).length + (serAll srecs).length + (serAll drecs.dropLast).length + 8
+      · -- inside Data
+        obtain ⟨z, rfl⟩ : ∃ z, k = (serAll recs).length + ((serAll body).length + z) :=
+          ⟨k - (serAll recs).length - (serAll body).length, by omega⟩
+        have hXs : serAll srecs ++ serAll drecs = serAll body ++ ((trec 5 p.id pad res).ser ++ serAll drecs) := by
+          rw [hsr, C02.serAll_append, C02.serAll_single, List.append_assoc]; rfl
+        rw [take_add_append, hXs, take_add_append] at hin
+        have hZlen : (((trec 5 p.id pad res).ser ++ serAll drecs).take z).length = z := by
+          rw [List.length_take, List.length_append, ser_length]
+          have : (trec 5 p.id pad res).content.length = 0 := rfl
+          have : (trec 5 p.id pad res).pad.length = pad.length := rfl
+          omega
+        obtain ⟨c', C2, O2, hrun, hph, _, hC2, hO2, hlog, hhs, hst, hr1, hre, hhe⟩ := eof_in_data_filter_e2e_unbounded
+          (p := p) (recs := recs) (srecs := srecs) (drecs := drecs) (content := content) (content2 := content2)
+          (((trec 5 p.id pad res).ser ++ serAll drecs).take z) b mc data st t fuel hwf hrole hpairs hnoise hs hsn hd hdn
+          (by rw [hdl, hXs]; exact (List.prefix_append_right_inj _).2 (List.take_prefix _ _))
+          (by rw [hZlen]; omega) (by rw [hdl, hdl2, hZlen]; omega) (by rw [hdl]; exact hin) hb hem hev hfuel hhf
+        refine ⟨c', owedStream p.id 5 mc srecs ++ owedStream p.id 8 mc drecs, [], hrun, hph, List.append_nil _,
+          ⟨owedPreamble p mc recs ++ (owedStream p.id 5 mc srecs ++ O2), by rw [hlog, List.append_assoc], ?_⟩, by omega,
+          fun h => by omega, fun _ => ⟨hhs, hst⟩, fun _ h => by omega,
+          fun _ _ => ⟨hr1, C2, hC2, hre, hhe⟩, fun h => by simp only [List.length_append] at h; omega⟩
+        obtain ⟨z', hz'⟩ := hO2
+        simp only [expectedLogN, List.append_assoc, ← hz']
+        exact ⟨z' ++ (streamRecords 6 p.id data ++ ([] ++ epilogue p.id st)), by simp only [List.append_assoc]⟩
+      · -- the whole wire
+        have hge : (serAll recs ++ (serAll srecs ++ serAll drecs)).length ≤ k := by
+          rcases hk with hk | hk
+          · exact absurd hk h3
+          · exact hk
+        have hin' : t.input = serAll recs ++ (serAll srecs ++ serAll drecs) := by
+          rw [hin, List.take_of_length_le hge]
+        obtain ⟨c', fin, O1, O2, hrun, hO, ho⟩ := single_request_e2e_filter_unbounded (data := data) (st := st) (fuel := fuel)
+          hwf hrole hpairs hnoise hs hsn hd hdn hin' hb hev hfuel hhf
+        have hfinal : fin = "RET" ∧ c'.phase = .finished := by
+          rcases ho.final with ⟨_, h, hph⟩ | ⟨_, _, h, hph⟩ | ⟨_, hp, _⟩
+          · exact ⟨h, hph⟩
+          · exact ⟨h, hph⟩
+          · rw [hem] at hp; cases hp
+        obtain ⟨rfl, hph⟩ := hfinal
+        have hk' : ¬ k < (serAll recs).length := h1
+        refine ⟨c', O1, O2, hrun, hph, hO, ⟨_, ho.log, List.prefix_refl _⟩, by rw [ho.one_handler.1]; omega,
+          fun h => absurd h h1, fun _ => ho.one_handler, fun _ h => absurd h h2, fun _ h => absurd h h3,
+          fun _ => ⟨ho.read_content _ (by simp), ho.read_content _ (by simp), ho.log⟩⟩
+
+/-- `eof_in_auth_tail_e2e` without the size hypothesis (and with a model-fuel bound free of `b`). -/
+theorem eof_in_auth_tail_e2e_unbounded {p : Preamble} {recs tail : List Rec} {b mc : Nat} {rd : ARead}
+    {st : ExitStatus} {more : List (List HOp × Bool)} {t : Transport} {fuel : Nat} {X lost : Bytes}
+    (hwf : WellFormedPreamble p recs) (hrole : p.role = 2)
+    (hpairs : ∀ q ∈ p.pairs, (NV.enc q).length ≤ alignedBufsize b)
+    (hnoise : NoiseFits (alignedBufsize b) recs)
+    (htail : ∀ r ∈ tail, StreamNoise p.id r) (htn : NoiseFits (alignedBufsize b) tail)
+    (hcut : X ++ lost = serAll tail)
+    (hin : t.input = serAll recs ++ X) (hben : Ben t) (hem : t.endMode = .eof) (hev : hsCount t.events = 0)
+    (hfuel : t.rd.length + t.wr.length + 1 ≤ fuel) :
+    AuthCutOutcome p recs tail b mc rd st more lost t fuel := by
+  have ok := aok_of (mc := mc) (rd := rd) (wr := false) (data := []) (st := st) t.wlog 0 more hwf hrole hpairs hnoise
+    htail htn (fun _ => rfl) (by decide)
+  have hst : E2E.FStage (cutX (cfgA p recs tail b mc rd false [] st t.wlog 0 more) X)
+      (connS b mc t ((aHandler rd false [] st, true) :: more)) :=
+    .start (raw := []) rfl (by show [] ++ t.input = _; rw [hin]; rfl) (Nat.zero_le _) rfl hben rfl rfl rfl hev
+  have hrun := cut_run' ok (X := X) (lost := lost) hcut (ans t) (connS b mc t ((aHandler rd false [] st, true) :: more))
+    0 fuel (Or.inl hst) hem rfl (Nat.le_refl _) (by unfold ans; omega)
+  rcases hrun with ⟨c', h1, hf⟩ | ⟨c0, n0, f0, k, c1, h1, _, h3, h4⟩
+  · exact Or.inl ⟨c', h1, ⟨hf.phase, hf.wlog, hf.input, hf.lost, ⟨hf.ev.1, hf.ev.2⟩, hf.reads, hf.scripts⟩⟩
+  · exact Or.inr ⟨c0, n0, f0, k, c1, h1, h3, h4⟩
+
+/-- `eof_any_offset_auth_e2e` without the size hypothesis (and with a model-fuel bound free of `b`). -/
+theorem eof_any_offset_auth_e2e_unbounded {p : Preamble} {recs tail : List Rec} {b mc : Nat} {rd : ARead}
+    {st : ExitStatus} {more : List (List HOp × Bool)} {t : Transport} {fuel : Nat} (k : Nat)
+    (hwf : WellFormedPreamble p recs) (hrole : p.role = 2)
+    (hpairs : ∀ q ∈ p.pairs, (NV.enc q).length ≤ alignedBufsize b)
+    (hnoise : NoiseFits (alignedBufsize b) recs)
+    (htail : ∀ r ∈ tail, StreamNoise p.id r) (htn : NoiseFits (alignedBufsize b) tail)
+    (hin : t.input = (serAll recs ++ serAll tail).take k) (hben : Ben t) (hem : t.endMode = .eof)
+    (hev : hsCount t.events = 0)
+    (hfuel : t.rd.length + t.wr.length + 1 ≤ fuel) :
+    (k < (serAll recs).length ∧
+      ∃ c', runTask fuel (connS b mc t ((aHandler rd false [] st, true) :: more)) 0 none = (c', "RET") ∧
+        c'.phase = .finished ∧ c'.env.tr.input = [] ∧ hsCount c'.env.tr.events = 0 ∧
+        ∃ out, c'.env.tr.wlog = t.wlog ++ out ∧ out <+: owedPreamble p mc recs) ∨
+    ((serAll recs).length ≤ k ∧
+      AuthCutOutcome p recs tail b mc rd st more ((serAll tail).drop (k - (serAll recs).length)) t fuel) := by
+  by_cases hk : k < (serAll recs).length
+  · obtain ⟨c', h1, h2, h3, h4, _, h6, h7⟩ := eof_in_preamble_e2e_partial_unbounded (serAll tail) b mc k
+      ((aHandler rd false [] st, true) :: more) t fuel hwf hpairs hnoise hk hin hben hem hfuel
+    exact Or.inl ⟨hk, c', h1, h2, h3, h4.trans hev, _, h6, h7⟩
+  · have hk' : (serAll recs).length ≤ k := Nat.le_of_not_lt hk
+    obtain ⟨d, rfl⟩ : ∃ d, k = (serAll recs).length + d := ⟨k - (serAll recs).length, by omega⟩
+    rw [take_len_add] at hin
+    refine Or.inr ⟨hk', ?_⟩
+    rw [show (serAll recs).length + d - (serAll recs).length = d by omega]
+    exact eof_in_auth_tail_e2e_unbounded hwf hrole hpairs hnoise htail htn (List.take_append_drop d (serAll tail)) hin hben hem
+      hev hfuel
+
+/-- `eof_in_auth_tail_closed_e2e` without the size hypothesis (and with a model-fuel bound free of `b`). -/
+theorem eof_in_auth_tail_closed_e2e_unbounded {p : Preamble} {recs tail : List Rec} {b mc : Nat} {rd : ARead} {wr : Bool}
+    {data : Bytes} {st : ExitStatus} {more : List (List HOp × Bool)} {t : Transport} {fuel : Nat} {X lost : Bytes}
+    (hwf : WellFormedPreamble p recs) (hrole : p.role = 2)
+    (hpairs : ∀ q ∈ p.pairs, (NV.enc q).length ≤ alignedBufsize b)
+    (hnoise : NoiseFits (alignedBufsize b) recs)
+    (htail : ∀ r ∈ tail, StreamNoise p.id r) (htn : NoiseFits (alignedBufsize b) tail)
+    (hnb : ∀ r ∈ tail, r.rtype.toNat ≠ RT.beginRequest)
+    (hwd : wr = false → data = [])
+    (hcut : X ++ lost = serAll tail)
+    (hin : t.input = serAll recs ++ X) (hben : Ben t) (hem : t.endMode = .eof) (hev : hsCount t.events = 0)
+    (hfuel : t.rd.length + t.wr.length + 1 ≤ fuel)
+    (hhf : wcost data.length + 8 ≤ 1000) :
+    ∃ c', runTask fuel (connS b mc t ((aHandler rd wr data st, true) :: more)) 0 none = (c', "RET") ∧
+      (AuthCutFail2 p recs tail rd mc data more lost t c' ∨
+       ∃ t₁ t₂ O₁ O₂ U, AuthCutEnd p recs tail t₁ t₂ O₁ O₂ U rd mc data st more lost t c') := by
+  have hidle : ∀ r ∈ tail, IdleNoise r := idle_of_noBegin (fun r hr => (htail r hr).1) hnb
+  have ok := aok_of (mc := mc) (rd := rd) (st := st) t.wlog 0 more hwf hrole hpairs hnoise htail htn hwd hhf
+  have hmem : ∀ t1 t2 : List Rec, (C07U.cfgA p recs tail b mc rd wr data st t.wlog 0 more).body = t1 ++ t2 →
+      ∀ e ∈ t2, e ∈ tail := by
+    intro t1 t2 hsp e he
+    have : e ∈ (C07U.cfgA p recs tail b mc rd wr data st t.wlog 0 more).body := by
+      rw [hsp]; exact List.mem_append_right _ he
+    exact this
+  have hgood : ∀ t1 t2 : List Rec, (C07U.cfgA p recs tail b mc rd wr data st t.wlog 0 more).body = t1 ++ t2 →
+      GoodNext (alignedBufsize b) mc t2 (serAll dummyRecs ++ []) := fun t1 t2 hsp =>
+    idle_front dummy_wf b mc (fun q hq => by cases hq) (dummy_fits _) (fun e he => hidle e (hmem t1 t2 hsp e he))
+      (fun e he hg => htn e (hmem t1 t2 hsp e he) hg) []
+  have hst : E2E.FStage (cutX (C07U.cfgA p recs tail b mc rd wr data st t.wlog 0 more) X)
+      (connS b mc t ((aHandler rd wr data st, true) :: more)) :=
+    .start (raw := []) rfl (by show [] ++ t.input = _; rw [hin]; rfl) (Nat.zero_le _) rfl hben rfl rfl rfl hev
+  obtain ⟨c', fin, hrun, hres⟩ :=
+    run_authC' ok (X := X) (lost := lost) (Zd := serAll dummyRecs ++ []) hcut
+      (fun t1 t2 h => (hgood t1 t2 h).1) (fun t1 t2 h => (hgood t1 t2 h).2)
+      _ 0 fuel hst hem rfl (by show ans t + 1 ≤ fuel; unfold ans; omega)
+  have hL1 : (C07U.cfgA p recs tail b mc rd wr data st t.wlog 0 more).L1 = t.wlog ++ owedPreamble p mc recs := rfl
+  have hLeq : ∀ O1 O2 : Bytes, ((C07U.cfgA p recs tail b mc rd wr data st t.wlog 0 more).L1 ++ O1) ++
+      (C07U.cfgA p recs tail b mc rd wr data st t.wlog 0 more).D ++ O2 ++
+      (C07U.cfgA p recs tail b mc rd wr data st t.wlog 0 more).epi =
+      t.wlog ++ (owedPreamble p mc recs ++ O1 ++ streamRecords 6 p.id data ++ O2 ++ epilogue p.id st) := by
+    intro O1 O2
+    show ((t.wlog ++ owedPreamble p mc recs) ++ O1) ++ streamRecords 6 p.id data ++ O2 ++
+      makeRequestEpilogue p.id st [RT.stdout, RT.stderr] = _
+    rw [epilogue_eq]
+    simp only [List.append_assoc]
+  rcases hres with ⟨i, ⟨⟨hsp, hO, hU⟩, hk⟩, hkp, hem', _, _, _, hend⟩ | ⟨hfin, hfa, _, _⟩
+  · rcases hend with ⟨_, hp⟩ | ⟨rfl, hf⟩
+    · rw [hp.em] at hem'; cases hem'
+    · obtain ⟨F, hF, hlg⟩ := hf.log
+      have hFU : F = i.U := by
+        have e : serAll i.t2 ++ (serAll dummyRecs ++ []) = i.U ++ (lost ++ (serAll dummyRecs ++ [])) := by
+          rw [← hU, List.append_assoc]
+        have hF' : F ++ (lost ++ (serAll dummyRecs ++ [])) = serAll i.t2 ++ (serAll dummyRecs ++ []) := hF
+        rw [e] at hF'
+        exact List.append_cancel_right hF'
+      subst hFU
+      have hs2 : ∀ e ∈ i.t2, IdleNoise e := fun e he => hidle e (hmem i.t1 i.t2 hsp e he)
+      refine ⟨c', hrun, Or.inr ⟨i.t1, i.t2, i.O1, i.O2, i.U, hsp, hO, hU, hf.ph,
+        ⟨hkp.hs, hkp.ev _ List.mem_cons_self⟩, fun s hs => hkp.ev _ (List.mem_cons_of_mem _ hs), hkp.sc,
+        Or.inl ⟨hk, ?_, idle_out_prefix mc hs2 hU⟩⟩⟩
+      rw [hlg, CIdx.L, hLeq]
+      simp only [List.append_assoc]
+      rfl
+  · subst hfin
+    rcases hfa with ⟨s1, s2, O1, O2, U', hsp, hO, hU, hrd, hfu⟩ | hfe
+    · refine ⟨c', hrun, Or.inr ⟨s1, s2, O1, O2, U', hsp, hO, hU, hfu.ph, ⟨hfu.ev.1, hfu.ev.2⟩,
+        fun s hs => hrd s hs, hfu.sc, Or.inr ⟨hfu.nokeep, ?_⟩⟩⟩
+      rw [hfu.log, gU_LU]
+      exact hLeq O1 O2
+    · obtain ⟨O1, O2, hpre, hlg⟩ := hfe.wlog
+      refine ⟨c', hrun, Or.inl ⟨hfe.phase, ⟨O1, O2, hpre, ?_⟩, hfe.input, hfe.lost, ⟨hfe.ev.1, hfe.ev.2⟩,
+        fun s hs => hfe.reads s hs, hfe.scripts⟩⟩
+      rw [hlg, hL1]
+      show ((t.wlog ++ owedPreamble p mc recs) ++ O1) ++ streamRecords 6 p.id data = _
+      simp only [List.append_assoc]
+
+/-- `eof_any_offset_auth_closed_e2e` without the size hypothesis (and with a model-fuel bound free of `b`). -/
+theorem eof_any_offset_auth_closed_e2e_unbounded {p : Preamble} {recs tail : List Rec} {b mc : Nat} {rd : ARead} {wr : Bool}
+    {data : Bytes} {st : ExitStatus} {more : List (List HOp × Bool)} {t : Transport} {fuel : Nat} (k : Nat)
+    (hwf : WellFormedPreamble p recs) (hrole : p.role = 2)
+    (hpairs : ∀ q ∈ p.pairs, (NV.enc q).length ≤ alignedBufsize b)
+    (hnoise : NoiseFits (alignedBufsize b) recs)
+    (htail : ∀ r ∈ tail, StreamNoise p.id r) (htn : NoiseFits (alignedBufsize b) tail)
+    (hnb : ∀ r ∈ tail, r.rtype.toNat ≠ RT.beginRequest)
+    (hwd : wr = false → data = [])
+    (hin : t.input = (serAll recs ++ serAll tail).take k) (hben : Ben t) (hem : t.endMode = .eof)
+    (hev : hsCount t.events = 0)
+    (hfuel : t.rd.length + t.wr.length + 1 ≤ fuel)
+    (hhf : wcost data.length + 8 ≤ 1000) :
+    ∃ c', runTask fuel (connS b mc t ((aHandler rd wr data st, true) :: more)) 0 none = (c', "RET") ∧
+      c'.phase = .finished ∧
+      ((k < (serAll recs).length ∧ c'.env.tr.input = [] ∧ hsCount c'.env.tr.events = 0 ∧
+          ∃ out, c'.env.tr.wlog = t.wlog ++ out ∧ out <+: owedPreamble p mc recs) ∨
+       ((serAll recs).length ≤ k ∧
+          (AuthCutFail2 p recs tail rd mc data more ((serAll tail).drop (k - (serAll recs).length)) t c' ∨
+           ∃ t₁ t₂ O₁ O₂ U, AuthCutEnd p recs tail t₁ t₂ O₁ O₂ U rd mc data st more
+             ((serAll tail).drop (k - (serAll recs).length)) t c'))) := by
+  by_cases hk : k < (serAll recs).length
+  · obtain ⟨c', h1, h2, h3, h4, _, h6, h7⟩ := eof_in_preamble_e2e_partial_unbounded (serAll tail) b mc k
+      ((aHandler rd wr data st, true) :: more) t fuel hwf hpairs hnoise hk hin hben hem hfuel
+    exact ⟨c', h1, h2, Or.inl ⟨hk, h3, h4.trans hev, _, h6, h7⟩⟩
+  · have hk' : (serAll recs).length ≤ k := Nat.le_of_not_lt hk
+    obtain ⟨d, rfl⟩ : ∃ d, k = (serAll recs).length + d := ⟨k - (serAll recs).length, by omega⟩
+    rw [take_len_add] at hin
+    rw [show (serAll recs).length + d - (serAll recs).length = d by omega]
+    obtain ⟨c', h1, h2⟩ := eof_in_auth_tail_closed_e2e_unbounded (more := more) (fuel := fuel) hwf hrole hpairs hnoise htail htn
+      hnb hwd (List.take_append_drop d (serAll tail)) hin hben hem hev hfuel hhf
+    refine ⟨c', h1, ?_, Or.inr ⟨hk', h2⟩⟩
+    rcases h2 with h | ⟨_, _, _, _, _, h⟩
+    · exact h.phase
+    · exact h.phase
+
+
+/-- `eof_in_data_terminator_filter_e2e` without the size hypothesis (and with a model-fuel bound free of `b`). -/
+theorem eof_in_data_terminator_filter_e2e_unbounded {p : Preamble} {recs srecs drecs : List Rec} {content content2 : Bytes}
+    {b mc : Nat} {data : Bytes} {st : ExitStatus} {t : Transport} {fuel : Nat} (k : Nat)
+    (hwf : WellFormedPreamble p recs) (hrole : p.role = 3)
+    (hpairs : ∀ q ∈ p.pairs, (NV.enc q).length ≤ alignedBufsize b) (hnoise : NoiseFits (alignedBufsize b) recs)
+    (hs : StreamRecs p.id 5 content srecs) (hsn : NoiseFits (alignedBufsize b) srecs)
+    (hd : StreamRecs p.id 8 content2 drecs) (hdn : NoiseFits (alignedBufsize b) drecs)
+    (hk : (serAll recs).length + (serAll srecs).length + (serAll drecs.dropLast).length + 8 ≤ k)
+    (hin : t.input = (serAll recs ++ (serAll srecs ++ serAll drecs)).take k)
+    (hb : Ben t) (hem : t.endMode = .eof) (hev : hsCount t.events = 0)
+    (hfuel : t.rd.length + t.wr.length + 1 ≤ fuel)
+    (hhf : wcost data.length + 24 ≤ 1000) :
+    ∃ c' O₁ O₂, runTask fuel (connS b mc t [(canonicalF data st, true)]) 0 none = (c', "RET") ∧
+      O₁ ++ O₂ = owedStream p.id 5 mc srecs ++ owedStream p.id 8 mc drecs ∧ c'.phase = .finished ∧
+      c'.env.tr.wlog = t.wlog ++ expectedLogN p recs mc data st O₁ O₂ ∧
+      hsCount c'.env.tr.events = 1 ∧ startEvent p.request ∈ c'.env.tr.events ∧
+      readEvent content ∈ c'.env.tr.events ∧ readEvent content2 ∈ c'.env.tr.events := by
+  by_cases hlt : k < (serAll recs ++ (serAll srecs ++ serAll drecs)).length
+  · obtain ⟨body, pad, res, hpad, hbody, hsr⟩ := Str.StreamRecs.split hs
+    obtain ⟨body2, pad2, res2, hpad2, hbody2, hdr⟩ := Str.StreamRecs.split hd
+    have hdl2 : drecs.dropLast = body2 := by rw [hdr]; exact List.dropLast_concat
+    rw [hdl2] at hk
+    have hsb : NoiseFits (alignedBufsize b) body := fun r hr => hsn r (by rw [hsr]; simp [hr])
+    have hdb : NoiseFits (alignedBufsize b) body2 := fun r hr => hdn r (by rw [hdr]; simp [hr])
+    have ok : (cfgF p recs content body pad res content2 body2 pad2 res2 b mc data st t.wlog 0 []).OK :=
+      ⟨hwf, hpairs, hnoise, .filterU hrole hbody hbody2 hsb hdb hpad hpad2 rfl rfl rfl rfl rfl rfl hhf⟩
+    have hser : serAll srecs ++ serAll drecs =
+        serAll body ++ ((trec 5 p.id pad res).ser ++ (serAll body2 ++ (trec 8 p.id pad2 res2).ser)) := by
+      rw [hsr, hdr, C02.serAll_append, C02.serAll_single, C02.serAll_append, C02.serAll_single, List.append_assoc]
+      rfl
+    have hsl : (serAll srecs).length = (serAll body).length + (trec 5 p.id pad res).ser.length := by
+      rw [hsr, C02.serAll_append, C02.serAll_single, List.length_append]; rfl
+    rw [hser] at hin hlt
+    rw [hsl] at hk
+    obtain ⟨n, rfl⟩ : ∃ n, k = (serAll recs).length + ((serAll body).length + ((trec 5 p.id pad res).ser.length +
+        ((serAll body2).length + n))) :=
+      ⟨k - (serAll recs).length - (serAll body).length - (trec 5 p.id pad res).ser.length - (serAll body2).length,
+        by omega⟩
+    have h8 : 8 ≤ n := by omega
+    have hn : n < (trec 8 p.id pad2 res2).ser.length := by
+      simp only [List.length_append] at hlt; omega
+    rw [take_len_add, take_len_add, take_len_add, take_len_add] at hin
+    have ok3 := cfg3_cut ok hrole h8 hn
+    have hstage : Stage (cutCfgF (cfgF p recs content body pad res content2 body2 pad2 res2 b mc data st t.wlog 0 []) n)
+        (connS b mc t [(canonicalF data st, true)]) :=
+      .start (raw := []) rfl (by show [] ++ t.input = _; rw [hin]; rfl) (Nat.zero_le _) rfl hb rfl rfl rfl hev
+    obtain ⟨c', O1, O2, hO, hrun, hfin⟩ := run_from_stage3' ok3 (ans t) (connS b mc t [(canonicalF data st, true)]) 0 fuel
+      hstage hem rfl (Nat.le_refl _) (by unfold ans; omega)
+    have hOt : owedStream p.id 5 mc srecs ++ owedStream p.id 8 mc drecs =
+        owedStream p.id 5 mc body ++ owedStream p.id 8 mc body2 := by
+      rw [hsr, hdr, owedStream_append, owedStream_append, owedStream_term p.id 5 mc _ rfl,
+        owedStream_term p.id 8 mc _ rfl, List.append_nil, List.append_nil]
+    have hlog : c'.env.tr.wlog =
+        (cfgF p recs content body pad res content2 body2 pad2 res2 b mc data st t.wlog 0 []).L3 O1 O2 := hfin.log
+    rw [L3_eq] at hlog
+    have hev1 : hsCount c'.env.tr.events = 0 + 1 ∧ hsEvent p.request ∈ c'.env.tr.events := hfin.ev
+    exact ⟨c', O1, O2, hrun, hO.trans hOt.symm, hfin.ph, hlog, hev1.1, hev1.2,
+      hfin.re _ (by show rEvent content ∈ [rEvent content, rEvent content2]; simp),
+      hfin.re _ (by show rEvent content2 ∈ [rEvent content, rEvent content2]; simp)⟩
+  · have hin' : t.input = serAll recs ++ (serAll srecs ++ serAll drecs) := by
+      rw [hin, List.take_of_length_le (by omega)]
+    obtain ⟨c', fin, O1, O2, hrun, hO, ho⟩ := single_request_e2e_filter_unbounded (data := data) (st := st) (fuel := fuel)
+      hwf hrole hpairs hnoise hs hsn hd hdn hin' hb hev hfuel hhf
+    have hfinal : fin = "RET" ∧ c'.phase = .finished := by
+      rcases ho.final with ⟨_, h, hph⟩ | ⟨_, _, h, hph⟩ | ⟨_, hp, _⟩
+      · exact ⟨h, hph⟩
+      · exact ⟨h, hph⟩
+      · rw [hem] at hp; cases hp
+    obtain ⟨rfl, hph⟩ := hfinal
+    exact ⟨c', O1, O2, hrun, hO, hph, ho.log, ho.one_handler.1, ho.one_handler.2, ho.read_content _ (by simp),
+      ho.read_content _ (by simp)⟩
+
+/-- `eof_any_offset_filter_all_e2e` without the size hypothesis (and with a model-fuel bound free of `b`). -/
+theorem eof_any_offset_filter_all_e2e_unbounded {p : Preamble} {recs srecs drecs : List Rec} {content content2 : Bytes}
+    {b mc : Nat} {data : Bytes} {st : ExitStatus} {t : Transport} {fuel : Nat} (k : Nat)
+    (hwf : WellFormedPreamble p recs) (hrole : p.role = 3)
+    (hpairs : ∀ q ∈ p.pairs, (NV.enc q).length ≤ alignedBufsize b) (hnoise : NoiseFits (alignedBufsize b) recs)
+    (hs : StreamRecs p.id 5 content srecs) (hsn : NoiseFits (alignedBufsize b) srecs)
+    (hd : StreamRecs p.id 8 content2 drecs) (hdn : NoiseFits (alignedBufsize b) drecs)
+    (hin : t.input = (serAll recs ++ (serAll srecs ++ serAll drecs)).take k)
+    (hb : Ben t) (hem : t.endMode = .eof) (hev : hsCount t.events = 0)
+    (hfuel : t.rd.length + t.wr.length + 1 ≤ fuel)
+    (hhf : wcost data.length + 24 ≤ 1000) :
+    ∃ c' O₁ O₂, runTask fuel (connS b mc t [(canonicalF data st, true)]) 0 none = (c', "RET") ∧
+      c'.phase = .finished ∧ O₁ ++ O₂ = owedStream p.id 5 mc srecs ++ owedStream p.id 8 mc drecs ∧
+      (∃ w, c'.env.tr.wlog = t.wlog ++ w ∧ w <+: expectedLogN p recs mc data st O₁ O₂) ∧
+      hsCount c'.env.tr.events ≤ 1 ∧
+      (k < (serAll recs).length → hsCount c'.env.tr.events = 0) ∧
+      ((serAll recs).length ≤ k → hsCount c'.env.tr.events = 1 ∧ startEvent p.request ∈ c'.env.tr.events) ∧
+      ((serAll recs).length ≤ k → k < (serAll recs).length + (serAll srecs.dropLast).length + 8 →
+        ∃ C, C <+: content ∧ readEofEvent C ∈ c'.env.tr.events ∧ handlerEofEvent ∈ c'.env.tr.events) ∧
+      ((serAll recs).length + (serAll srecs.dropLast).length + 8 ≤ k →
+        k < (serAll recs).length + (serAll srecs).length + (serAll drecs.dropLast).length + 8 →
+        readEvent content ∈ c'.env.tr.events ∧
+        ∃ C2, C2 <+: content2 ∧ readEofEvent C2 ∈ c'.env.tr.events ∧ handlerEofEvent ∈ c'.env.tr.events) ∧
+      -- behind the header of the Data terminator: everything read, everything answered
+      ((serAll recs).length + (serAll srecs).length + (serAll drecs.dropLast).length + 8 ≤ k →
+        readEvent content ∈ c'.env.tr.events ∧ readEvent content2 ∈ c'.env.tr.events ∧
+        c'.env.tr.wlog = t.wlog ++ expectedLogN p recs mc data st O₁ O₂) := by
+  by_cases h3 : k < (serAll recs).length + (serAll srecs).length + (serAll drecs.dropLast).length + 8
+  · obtain ⟨c', O1, O2, a1, a2, a3, a4, a5, a6, a7, a8, a9, _⟩ := eof_any_offset_filter_e2e_unbounded (data := data) (st := st)
+      (fuel := fuel) k hwf hrole hpairs hnoise hs hsn hd hdn hin (Or.inl h3) hb hem hev hfuel hhf
+    exact ⟨c', O1, O2, a1, a2, a3, a4, a5, a6, a7, a8, a9, fun h => absurd h3 (by omega)⟩
+  · have hge : (serAll recs).length + (serAll srecs).length + (serAll drecs.dropLast).length + 8 ≤ k := by omega
+    obtain ⟨c', O1, O2, hrun, hO, hph, hlog, hhs, hst, hr1, hr2⟩ := eof_in_data_terminator_filter_e2e_unbounded (data := data)
+      (st := st) (fuel := fuel) k hwf hrole hpairs hnoise hs hsn hd hdn hge hin hb hem hev hfuel hhf
+    have hsd : (serAll srecs.dropLast).length ≤ (serAll srecs).length := by
+      obtain ⟨body, pad, res, _, _, hsr⟩ := Str.StreamRecs.split hs
+      rw [hsr, List.dropLast_concat, C02.serAll_append, List.length_append]; omega
+    refine ⟨c', O1, O2, hrun, hph, hO, ⟨_, hlog, List.prefix_refl _⟩, by omega, fun h => by omega,
+      fun _ => ⟨hhs, hst⟩, fun _ h => by omega, fun _ h => absurd h h3, fun _ => ⟨hr1, hr2, hlog⟩⟩
+
+/-- `read_err_any_offset_e2e` without the size hypothesis (and with a model-fuel bound free of `b`). -/
+theorem read_err_any_offset_e2e_unbounded {p : Preamble} {recs : List Rec} {content : Bytes} {srecs : List Rec}
+    {b mc : Nat} {data : Bytes} {st : ExitStatus} {t : Transport} {fuel : Nat} (k : Nat)
+    (hwf : WellFormedPreamble p recs) (hrole : p.role = 1)
+    (hpairs : ∀ q ∈ p.pairs, (NV.enc q).length ≤ alignedBufsize b)
+    (hnoise : NoiseFits (alignedBufsize b) recs)
+    (hs : StreamRecs p.id 5 content srecs) (hsn : NoiseFits (alignedBufsize b) srecs)
+    (hin : t.input = (serAll recs ++ serAll srecs).take k) (hben : Ben t) (hem : t.endMode = .eof)
+    (hev : hsCount t.events = 0) (hfuel : t.rd.length + t.wr.length + 1 ≤ fuel)
+    (hhf : wcost data.length + 12 ≤ 1000) :
+    ∃ c' O₁ O₂, runTask fuel (conn0 b mc (em .err t) data st) 0 none = (c', "RET") ∧ c'.phase = .finished ∧
+      O₁ ++ O₂ = owedStream p.id 5 mc srecs ∧
+      (∃ w, c'.env.tr.wlog = t.wlog ++ w ∧ w <+: expectedLogN p recs mc data st O₁ O₂) ∧
+      hsCount c'.env.tr.events ≤ 1 ∧
+      (k < (serAll recs).length → hsCount c'.env.tr.events = 0) ∧
+      ((serAll recs).length ≤ k → hsCount c'.env.tr.events = 1 ∧ startEvent p.request ∈ c'.env.tr.events) ∧
+      ((serAll recs).length + (serAll srecs.dropLast).length + 8 ≤ k →
+        c'.env.tr.wlog = t.wlog ++ expectedLogN p recs mc data st O₁ O₂) ∧
+      -- the relation to the EOF run
+      ∃ ce, runTask fuel (conn0 b mc t data st) 0 none = (ce, "RET") ∧ (c' = emC .err ce ∨ HitC ce c') := by
+  obtain ⟨ce, O1, O2, hrun, hph, hO, ⟨w, hw1, hw2⟩, h5, h6, h7, _, h9⟩ := eof_any_offset_e2e_unbounded (data := data) (st := st)
+    (fuel := fuel) k hwf hrole hpairs hnoise hs hsn hin hben hem hev hfuel hhf
+  obtain ⟨c', hr, a1, a2, a3, _, _, a6, a7⟩ := eof_err_lift (c := conn0 b mc t data st) (connS_allProp b mc t (canonical data st) [] (fun _ h => nomatch h)) hem hrun
+  refine ⟨c', O1, O2, hr, a1.trans hph, hO, ⟨w, a2.trans hw1, hw2⟩, by rw [a3]; exact h5,
+    fun h => a3.trans (h6 h), fun h => ⟨a3.trans (h7 h).1, a6 _ (isHS_start _) (h7 h).2⟩,
+    fun h => a2.trans (h9 h).2, ce, hrun, a7⟩
+
+/-- `read_err_any_offset_filter_e2e` without the size hypothesis (and with a model-fuel bound free of `b`). -/
+theorem read_err_any_offset_filter_e2e_unbounded {p : Preamble} {recs srecs drecs : List Rec} {content content2 : Bytes}
+    {b mc : Nat} {data : Bytes} {st : ExitStatus} {t : Transport} {fuel : Nat} (k : Nat)
+    (hwf : WellFormedPreamble p recs) (hrole : p.role = 3)
+    (hpairs : ∀ q ∈ p.pairs, (NV.enc q).length ≤ alignedBufsize b) (hnoise : NoiseFits (alignedBufsize b) recs)
+    (hs : StreamRecs p.id 5 content srecs) (hsn : NoiseFits (alignedBufsize b) srecs)
+    (hd : StreamRecs p.id 8 content2 drecs) (hdn : NoiseFits (alignedBufsize b) drecs)
+    (hin : t.input = (serAll recs ++ (serAll srecs ++ serAll drecs)).take k)
+    (hb : Ben t) (hem : t.endMode = .eof) (hev : hsCount t.events = 0)
+    (hfuel : t.rd.length + t.wr.length + 1 ≤ fuel)
+    (hhf : wcost data.length + 24 ≤ 1000) :
+    ∃ c' O₁ O₂, runTask fuel (connS b mc (em .err t) [(canonicalF data st, true)]) 0 none = (c', "RET") ∧
+      c'.phase = .finished ∧ O₁ ++ O₂ = owedStream p.id 5 mc srecs ++ owedStream p.id 8 mc drecs ∧
+      (∃ w, c'.env.tr.wlog = t.wlog ++ w ∧ w <+: expectedLogN p recs mc data st O₁ O₂) ∧
+      hsCount c'.env.tr.events ≤ 1 ∧
+      (k < (serAll recs).length → hsCount c'.env.tr.events = 0) ∧
+      ((serAll recs).length ≤ k → hsCount c'.env.tr.events = 1 ∧ startEvent p.request ∈ c'.env.tr.events) ∧
+      ((serAll recs).length + (serAll srecs).length + (serAll drecs.dropLast).length + 8 ≤ k →
+        c'.env.tr.wlog = t.wlog ++ expectedLogN p recs mc data st O₁ O₂) ∧
+      ∃ ce, runTask fuel (connS b mc t [(canonicalF data st, true)]) 0 none = (ce, "RET") ∧
+        (c' = emC .err ce ∨ HitC ce c') := by
+  obtain ⟨ce, O1, O2, hrun, hph, hO, ⟨w, hw1, hw2⟩, h5, h6, h7, _, _, h10⟩ := eof_any_offset_filter_all_e2e_unbounded
+    (data := data) (st := st) (fuel := fuel) k hwf hrole hpairs hnoise hs hsn hd hdn hin hb hem hev hfuel hhf
+  obtain ⟨c', hr, a1, a2, a3, _, _, a6, a7⟩ :=
+    eof_err_lift (connS_allProp b mc t (canonicalF data st) [] (fun _ h => nomatch h)) hem hrun
+  refine ⟨c', O1, O2, hr, a1.trans hph, hO, ⟨w, a2.trans hw1, hw2⟩, by rw [a3]; exact h5,
+    fun h => a3.trans (h6 h), fun h => ⟨a3.trans (h7 h).1, a6 _ (isHS_start _) (h7 h).2⟩,
+    fun h => a2.trans (h10 h).2.2, ce, hrun, a7⟩
+
+/-- `read_err_any_offset_auth_closed_e2e` without the size hypothesis (and with a model-fuel bound free of `b`). -/
+theorem read_err_any_offset_auth_closed_e2e_unbounded {p : Preamble} {recs tail : List Rec} {b mc : Nat} {rd : ARead} {wr : Bool}
+    {data : Bytes} {st : ExitStatus} {more : List (List HOp × Bool)} {t : Transport} {fuel : Nat} (k : Nat)
+    (hwf : WellFormedPreamble p recs) (hrole : p.role = 2)
+    (hpairs : ∀ q ∈ p.pairs, (NV.enc q).length ≤ alignedBufsize b)
+    (hnoise : NoiseFits (alignedBufsize b) recs)
+    (htail : ∀ r ∈ tail, StreamNoise p.id r) (htn : NoiseFits (alignedBufsize b) tail)
+    (hnb : ∀ r ∈ tail, r.rtype.toNat ≠ RT.beginRequest)
+    (hwd : wr = false → data = []) (hmore : ∀ s ∈ more, s.2 = true)
+    (hin : t.input = (serAll recs ++ serAll tail).take k) (hben : Ben t) (hem : t.endMode = .eof)
+    (hev : hsCount t.events = 0)
+    (hfuel : t.rd.length + t.wr.length + 1 ≤ fuel)
+    (hhf : wcost data.length + 8 ≤ 1000) :
+    ∃ ce c', runTask fuel (connS b mc t ((aHandler rd wr data st, true) :: more)) 0 none = (ce, "RET") ∧
+      runTask fuel (connS b mc (em .err t) ((aHandler rd wr data st, true) :: more)) 0 none = (c', "RET") ∧
+      c'.phase = .finished ∧ c'.env.tr.wlog = ce.env.tr.wlog ∧
+      hsCount c'.env.tr.events = hsCount ce.env.tr.events ∧ c'.scripts = ce.scripts ∧
+      (c' = emC .err ce ∨ HitC ce c') ∧
+      -- the EOF run's closed form
+      ((k < (serAll recs).length ∧ hsCount ce.env.tr.events = 0 ∧
+          ∃ out, ce.env.tr.wlog = t.wlog ++ out ∧ out <+: owedPreamble p mc recs) ∨
+       ((serAll recs).length ≤ k ∧
+          (AuthCutFail2 p recs tail rd mc data more ((serAll tail).drop (k - (serAll recs).length)) t ce ∨
+           ∃ t₁ t₂ O₁ O₂ U, AuthCutEnd p recs tail t₁ t₂ O₁ O₂ U rd mc data st more
+             ((serAll tail).drop (k - (serAll recs).length)) t ce))) := by
+  obtain ⟨ce, hrun, hph, hcl⟩ := eof_any_offset_auth_closed_e2e_unbounded (more := more) (fuel := fuel) (rd := rd) (wr := wr)
+    (data := data) (st := st) k hwf hrole hpairs hnoise htail htn hnb hwd hin hben hem hev hfuel hhf
+  obtain ⟨c', hr, a1, a2, a3, a4, _, _, a7⟩ :=
+    eof_err_lift (connS_allProp b mc t (aHandler rd wr data st) more hmore) hem hrun
+  refine ⟨ce, c', hrun, hr, a1.trans hph, a2, a3, a4, a7, ?_⟩
+  rcases hcl with ⟨h1, _, h3, h4⟩ | h
+  · exact Or.inl ⟨h1, h3, h4⟩
+  · exact Or.inr h
+
+
+/-! ## A failing write / an erroring read at any index (`C12E2E4`) -/
+
 
 /-- **The `j`-th write answer fails** — `write_error_e2e` for a wire and a buffer of ANY size (no `hsize`;
 `hhf` bounds only the handler's own write). -/
@@ -176,6 +1088,44 @@ example : ∃ c' fin, runTask 20 (conn0 65536 10 { bigT with wr := [.n 5, .pendi
   rcases h with ⟨c1, rfl, _⟩ | ⟨h1, h2, _, h4, _⟩
   · exact Or.inl ⟨c1.env.tr.wr, rfl⟩
   · exact Or.inr ⟨h1, h2, h4⟩
+
+end ExampleBig12
+
+
+/-! ## Non-vacuity of the truncation family: the 65 535-byte record cut after 40 000 bytes -/
+namespace ExampleBig12
+open Fcgi.C01.Example Fcgi.C07E.Example Fcgi.C07U.ExampleBig
+
+/-- the big wire of `C07Unbounded` cut 40 000 bytes into the 65 535-byte Stdin record, then EOF -/
+def bigK : Nat := (serAll recs).length + 40000
+theorem bigK_ge : (serAll recs).length ≤ bigK := Nat.le_add_right _ _
+def bigIn : Bytes := (serAll recs ++ serAll bigS).take bigK
+def bigCut : Transport := { bigT with input := bigIn, endMode := .eof }
+theorem bigCut_input : bigCut.input = (serAll recs ++ serAll bigS).take bigK := by
+  have h1 : bigCut.input = bigIn := by simp only [bigCut]
+  have h2 : bigIn = (serAll recs ++ serAll bigS).take bigK := by unfold bigIn; exact Eq.refl _
+  exact h1.trans h2
+
+/-- `eof_any_offset_e2e_unbounded` on it (`b = 65536`, 40 000+ bytes on the wire: outside `eof_any_offset_e2e`,
+whose `hhf` alone would need `alignedBufsize b / 32 ≤ 988`): the task returns, one handler start -/
+example : ∃ c', runTask 20 (conn0 65536 10 bigCut [104, 105] (.complete 0)) 0 none = (c', "RET") ∧
+    c'.phase = .finished ∧ hsCount c'.env.tr.events = 1 ∧ startEvent pre.request ∈ c'.env.tr.events := by
+  obtain ⟨c', O1, O2, h1, h2, _, _, _, _, h7, _⟩ := eof_any_offset_e2e_unbounded (p := pre) (recs := recs)
+    (content := big) (srecs := bigS) (b := 65536) (mc := 10) (data := [104, 105]) (st := .complete 0) (fuel := 20)
+    (t := bigCut) bigK
+    recs_wf rfl (pre_pairs_fit _) (noise_fits _) bigS_ok (bigS_fits _) bigCut_input ⟨by decide, by decide, rfl, by decide⟩ rfl rfl
+    (by decide) (by decide)
+  exact ⟨c', h1, h2, (h7 bigK_ge).1, (h7 bigK_ge).2⟩
+
+/-- … and the same wire on a transport whose reads FAIL at the cut (`read_err_any_offset_e2e_unbounded`) -/
+example : ∃ c', runTask 20 (conn0 65536 10 (em .err bigCut) [104, 105] (.complete 0)) 0 none = (c', "RET") ∧
+    c'.phase = .finished ∧ hsCount c'.env.tr.events = 1 := by
+  obtain ⟨c', O1, O2, h1, h2, _, _, _, _, h7, _⟩ := read_err_any_offset_e2e_unbounded (p := pre) (recs := recs)
+    (content := big) (srecs := bigS) (b := 65536) (mc := 10) (data := [104, 105]) (st := .complete 0) (fuel := 20)
+    (t := bigCut) bigK
+    recs_wf rfl (pre_pairs_fit _) (noise_fits _) bigS_ok (bigS_fits _) bigCut_input ⟨by decide, by decide, rfl, by decide⟩ rfl rfl
+    (by decide) (by decide)
+  exact ⟨c', h1, h2, (h7 bigK_ge).1⟩
 
 end ExampleBig12
 
